@@ -432,6 +432,8 @@ META = (META[0] + ' IDXLOOP.', META[1])
 
 META = (META[0] + ' CMP3 (a compare member that tests sizes or calls traits compare itself is evaluated over the nine (prefix order, size order) worlds); WRAP (a position argument, which may be npos, is bounded before anything is added to it).', META[1])
 
+META = (META[0] + ' TRAITSORD (the ordering operations of the string order characters through Traits).', META[1])
+
 
 def run(chk, tier):
     db = D.load("checks")
@@ -462,6 +464,9 @@ def run(chk, tier):
         chk.analysis_broken("SLOTS-W: only %d growing size stores found in basic_inplace_string (floor 4)" % chk.rule_instances.get("SLOTS-W", 0))
     same_name_delegation(chk, db)
     compare3_rule(chk, db)
+    from ..rules import extra8 as _X8
+    if _X8.traits_order_area(chk, db, ['_string/basic_inplace_string.hpp']) < 8:      # TRAITSORD
+        chk.analysis_broken('TRAITSORD: fewer than 8 ordering operations of basic_inplace_string found (floor 8)')
     from ..rules import exits as _EXW
     if _EXW.pos_wrap_area(chk, db, ['_string/', '_strings/', '_string_view/']) < 3:      # WRAP
         chk.analysis_broken('WRAP: fewer than 3 members that add to a position argument (floor 3)')
